@@ -772,7 +772,7 @@ class Engine:
                 s.exec_path(st)
             except Violation as v:
                 s.violations.append({'kind': v.kind, 'msg': v.msg, 'model': v.model, 'where': s.where(st), 'notes': st.notes[-8:], 'choices': st.choices[:],
-                                     'failed_alloc': st.failed_alloc, 'io_failed': st.env.get('io_failed'), 'io_fail_op': st.env.get('io_fail_op'), 'steps': st.steps})
+                                     'failed_alloc': st.failed_alloc, 'io_failed': st.env.get('io_failed'), 'io_fail_op': st.env.get('io_fail_op'), 'interfered': st.env.get('interfered'), 'steps': st.steps})
             except PathEnd as e:
                 if e.why == 'end':
                     s.finish_path(st)
@@ -803,7 +803,7 @@ class Engine:
                     return mdl.eval(c, model_completion=True).as_long()
                 obs = [(tag, [ev(c) for c in cells]) for tag, cells in st.obs]
                 s.completed_samples.append({'inputs': s.model_dict(st, mdl), 'obs': obs, 'steps': st.steps, 'choices': st.choices[:], 'notes': st.notes[-6:],
-                                            'failed_alloc': st.failed_alloc, 'io_failed': st.env.get('io_failed'), 'io_fail_op': st.env.get('io_fail_op')})
+                                            'failed_alloc': st.failed_alloc, 'io_failed': st.env.get('io_failed'), 'io_fail_op': st.env.get('io_fail_op'), 'interfered': st.env.get('interfered')})
             except (EngineLimit, z3.Z3Exception):
                 pass
 
